@@ -267,7 +267,7 @@ def run_search(binary, pid, unit, tier, seed):
     if binary is None:
         return None
     try:
-        p = subprocess.run([binary, 'search', pid, unit, tier, str(seed)], capture_output=True, text=True, timeout=600)
+        p = subprocess.run([binary, 'search', pid, unit, 'thorough', str(seed)], capture_output=True, text=True, timeout=900)
     except subprocess.TimeoutExpired:
         return None
     for ln in p.stdout.split('\n'):
